@@ -109,10 +109,13 @@ pub fn gen_line(e: &mut Entropy, corp: &corpus::Corpus) -> (String, Vec<&'static
         13 => {
             cl.push("go:flags");
             let f = GO_FLAGS[e.pick(GO_FLAGS.len())];
-            match e.pick(3) {
+            match e.pick(5) {
                 0 => format!("go {f}"),
                 1 => format!("go {f} e2e4 nodes 100"),
-                _ => format!("go nodes 100 {f}"),
+                2 => format!("go nodes 100 {f}"),
+                // a flag followed by junk, or by moves and then junk
+                3 => format!("go nodes 100 {f} {}", JUNK[e.pick(JUNK.len())]),
+                _ => format!("go nodes 100 {f} e2e4 g1f3 {} depth 2", JUNK[e.pick(JUNK.len())]),
             }
         }
         14 | 15 => {
